@@ -16,3 +16,70 @@ Proof.
   { destruct (Nat.eqb_spec (d + 2) (length sl)), (Nat.eqb_spec d (length sl - 2)); try reflexivity; lia. }
   rewrite E1, E2. reflexivity.
 Qed.
+
+(* ---- reads never modify the medium or the operation log ---- *)
+From Coq Require Import NArith.
+Require Import Nor.
+Open Scope N_scope.
+
+Lemma d_read_log d a len : dlog (fst (d_read d a len)) = dlog d /\ dmem (fst (d_read d a len)) = dmem d.
+Proof.
+  unfold d_read. destruct (dtotal d <? a + len); [split; reflexivity|].
+  unfold tick. destruct (match dfail d with Some k => k =? dops d | None => false end); split; reflexivity.
+Qed.
+
+Lemma load_header_log m i d : dlog (fst (load_header m i d)) = dlog d /\ dmem (fst (load_header m i d)) = dmem d.
+Proof.
+  unfold load_header. pose proof (d_read_log d (base m i) Consts.SLOT_HEADER_SIZE) as H.
+  destruct (d_read d (base m i) Consts.SLOT_HEADER_SIZE) as [d1 [v|]]; exact H.
+Qed.
+
+Lemma crc_segments_log m i sz : forall idxs skip st d,
+  dlog (fst (crc_segments m i sz idxs skip st d)) = dlog d /\ dmem (fst (crc_segments m i sz idxs skip st d)) = dmem d.
+Proof.
+  induction idxs as [|idx rest IH]; intros skip st d; cbn [crc_segments]; [split; reflexivity|].
+  assert (G : forall ts, let r := match d_read d (base m i + Consts.DATA_REGION_OFFSET + N.of_nat idx * sz) sz with
+                      | (d1, None) => (d1, None)
+                      | (d1, Some v) => crc_segments m i sz rest None (Crc.crc_raw st (skipn (N.to_nat ts) (bytes_of_val v (N.to_nat sz)))) d1 end in
+               dlog (fst r) = dlog d /\ dmem (fst r) = dmem d).
+  { intros ts. pose proof (d_read_log d (base m i + Consts.DATA_REGION_OFFSET + N.of_nat idx * sz) sz) as H.
+    destruct (d_read d (base m i + Consts.DATA_REGION_OFFSET + N.of_nat idx * sz) sz) as [d1 [v|]]; cbn [fst] in *; [|exact H].
+    destruct (IH None (Crc.crc_raw st (skipn (N.to_nat ts) (bytes_of_val v (N.to_nat sz)))) d1) as [A B]. cbv zeta. rewrite A, B. exact H. }
+  destruct skip as [r|]; [|apply G]. destruct (sz <=? r); [apply IH| apply G].
+Qed.
+
+Lemma crc_valid_log m i h d : dlog (fst (crc_valid m i h d)) = dlog d /\ dmem (fst (crc_valid m i h d)) = dmem d.
+Proof.
+  unfold crc_valid. destruct (_ <? _); [split; reflexivity|]. destruct (_ <? _); [split; reflexivity|].
+  pose proof (d_read_log d (base m i + Consts.DATA_REGION_OFFSET) (Consts.CRC32_SIZE + Consts.SIGNATURE_SIZE)) as H.
+  destruct (d_read d (base m i + Consts.DATA_REGION_OFFSET) (Consts.CRC32_SIZE + Consts.SIGNATURE_SIZE)) as [d1 [pre|]]; cbn [fst] in *; [|exact H].
+  pose proof (crc_segments_log m i (Slots.hsize h) (List.seq 0 (N.to_nat (Slots.hcount h))) (Some (Consts.CRC32_SIZE + Consts.SIGNATURE_SIZE)) 0 d1) as H2.
+  destruct (crc_segments m i (Slots.hsize h) (List.seq 0 (N.to_nat (Slots.hcount h))) (Some (Consts.CRC32_SIZE + Consts.SIGNATURE_SIZE)) 0 d1) as [d2 [st|]]; cbn [fst] in *.
+  - destruct (_ =? _); cbn [fst]; destruct H as [A B], H2 as [A2 B2]; rewrite A2, B2; auto.
+  - destruct H as [A B], H2 as [A2 B2]; rewrite A2, B2; auto.
+Qed.
+
+(* C14 / C01: the final check-and-mark programs nothing unless the CRC check of the firmware slot succeeded;
+   is_valid_firmware never modifies the flash *)
+Theorem check_gates_mark m u d :
+  dlog (fst (check_and_mark_done m u d)) <> dlog d ->
+  exists h d1, u_complete u = true /\ load_header m (u_fw u) d = (d1, Some (Some h)) /\ snd (crc_valid m (u_fw u) h d1) = ROk tt.
+Proof.
+  unfold check_and_mark_done. destruct (u_complete u); cbn [negb]; [|intros H; exfalso; apply H; reflexivity].
+  pose proof (load_header_log m (u_fw u) d) as HL.
+  destruct (load_header m (u_fw u) d) as [d1 [[h|]|]] eqn:E; cbn [fst] in *; try (intros H; exfalso; apply H; apply HL).
+  pose proof (crc_valid_log m (u_fw u) h d1) as HC.
+  destruct (crc_valid m (u_fw u) h d1) as [d2 [[]|e|]] eqn:EC; cbn [fst] in *.
+  - intros _. exists h, d1. repeat split; try reflexivity. rewrite EC. reflexivity.
+  - intros H; exfalso; apply H. destruct HL as [A _], HC as [A2 _]. cbn [fst]. congruence.
+  - intros H; exfalso; apply H. destruct HL as [A _], HC as [A2 _]. cbn [fst]. congruence.
+Qed.
+
+Theorem is_valid_firmware_readonly m i d :
+  dlog (fst (is_valid_firmware m i d)) = dlog d /\ dmem (fst (is_valid_firmware m i d)) = dmem d.
+Proof.
+  unfold is_valid_firmware. pose proof (load_header_log m i d) as HL.
+  destruct (load_header m i d) as [d1 [[h|]|]]; cbn [fst] in *; try exact HL.
+  destruct (Slots.hkind h); [|exact HL]. destruct (Slots.hext h); try exact HL.
+  destruct (crc_valid_log m i h d1) as [A B]. destruct HL as [C D]. rewrite A, B. auto.
+Qed.
